@@ -136,8 +136,14 @@ def run_case(case):
                 c0 = float(cur) if cur is not None else 1.0
                 big = max(1, int(math.ceil(c0 * 2)))
                 targets = [("x%g" % k, c0 * k) for k in POS] + [("int", big), ("np.int64", np.int64(big + 1))] + [("zero", 0.0), ("minus-one", -1.0), ("minus-current", -abs(c0) if c0 else -2.0), ("nan", float("nan"))]
+            if name in PARAM_SETTERS and not centre_like:
+                # a semi-axis assigned the current value of ANOTHER semi-axis: (x, x, y) -> (x, y, y) keeps the set of
+                # values while the shape changes (a memo keyed on the set would survive)
+                for other in "abc":
+                    if other != name and hasattr(start, other) and float(getattr(start, other)) != c0:
+                        targets.append(("as-" + other, float(getattr(start, other))))
             for tag, val in targets:
-                for warm in ((False, True) if (tag in ("x2", "far") and not case["prefix"]) or (tag == "x2" and len(case["prefix"]) == 1 and case["prefix"][0].startswith("call:")) else (False,)):
+                for warm in ((False, True) if ((tag in ("x2", "far") or tag.startswith("as-")) and not case["prefix"]) or (tag == "x2" and len(case["prefix"]) == 1 and case["prefix"][0].startswith("call:")) else (False,)):
                     obj = copy.deepcopy(start)
                     if warm:
                         # history read* -> set -> read: every public observable and every query (is_inside,
